@@ -6,6 +6,7 @@ import (
 	"compress/zlib"
 	"encoding/json"
 	"fmt"
+	"io"
 	"math"
 	"reflect"
 	"strings"
@@ -90,6 +91,7 @@ type c16World struct {
 	gotG    map[string]interface{}
 	readErr error
 	generic bool
+	again   []byte // the request body once more, for a second ReadEntity on the same Request
 }
 
 func c16Build() *c16World {
@@ -106,6 +108,18 @@ func c16Build() *c16World {
 			w.readErr = req.ReadEntity(&w.gotG)
 		} else {
 			w.readErr = req.ReadEntity(&w.gotS)
+		}
+		if w.readErr == nil && w.again != nil && !w.generic {
+			// the body is put back (as a filter that peeked at it would) and the same Request reads
+			// its entity a second time: the same value again
+			req.Request.Body = io.NopCloser(bytes.NewReader(w.again))
+			first := w.gotS
+			w.gotS = c16Val{}
+			if w.readErr = req.ReadEntity(&w.gotS); w.readErr == nil && fmt.Sprintf("%+v", normVal(first)) != fmt.Sprintf("%+v", normVal(w.gotS)) {
+				w.readErr = fmt.Errorf("second ReadEntity on the same Request gave %+v, the first %+v", w.gotS, first)
+			} else if w.readErr != nil {
+				w.readErr = fmt.Errorf("second ReadEntity on the same Request (body restored): %v", w.readErr)
+			}
 		}
 		if w.readErr != nil {
 			resp.WriteErrorString(400, w.readErr.Error())
@@ -153,6 +167,7 @@ func (w *c16World) post(body []byte, ct, enc string, generic bool) (panicked str
 		}
 	}()
 	w.readErr = fmt.Errorf("echo handler did not run")
+	w.again = body // well-formed bodies are read twice from the same Request (restored in between)
 	rec := h.NewRec()
 	w.c.Dispatch(rec, q.HTTP())
 	return ""
